@@ -11,6 +11,12 @@ import (
 // negated; an `if x, err := f(); err != nil {} else if x {}` chain keeps its init statements'
 // calls attributed to the enclosing guard).  Returns are recorded as "return" when wantReturns.
 func guardedCalls(c *tctx, fd *ast.FuncDecl, calls map[string]bool, wantReturns bool) [][2]string {
+	return guardedSteps(c, fd, calls, wantReturns, nil)
+}
+
+// guardedSteps is guardedCalls plus assignments whose left-hand side starts with one of assignPrefixes
+// (recorded as "set lhs = rhs").
+func guardedSteps(c *tctx, fd *ast.FuncDecl, calls map[string]bool, wantReturns bool, assignPrefixes []string) [][2]string {
 	norm := func(s string) string { return strings.Join(strings.Fields(s), " ") }
 	var out [][2]string
 	callsIn := func(n ast.Node, conds []string) {
@@ -71,6 +77,23 @@ func guardedCalls(c *tctx, fd *ast.FuncDecl, calls map[string]bool, wantReturns 
 				}
 				out = append(out, [2]string{"return " + strings.Join(rs, ","), strings.Join(conds, " && ")})
 			}
+		case *ast.AssignStmt:
+			for i, l := range x.Lhs {
+				lhs := norm(c.src(l))
+				for _, pre := range assignPrefixes {
+					if strings.HasPrefix(lhs, pre) {
+						rhs := "?"
+						if i < len(x.Rhs) {
+							rhs = norm(c.src(x.Rhs[i]))
+						} else if len(x.Rhs) == 1 {
+							rhs = norm(c.src(x.Rhs[0]))
+						}
+						out = append(out, [2]string{"set " + lhs + " = " + rhs, strings.Join(conds, " && ")})
+						break
+					}
+				}
+			}
+			callsIn(n, conds)
 		case *ast.ForStmt:
 			walk(x.Body, append(append([]string{}, conds...), "for"))
 		case *ast.RangeStmt:
